@@ -33,6 +33,7 @@ M = [
  ("v_accumulated_in_f64", "src/sampling.rs", "        .fold(const_builder.zero(), |acc, x| acc + x);\n\n    for l in 0..num_loops {", "        .fold(const_builder.zero(), |acc, x| const_builder.from_f64((acc + x).to_f64()));\n\n    for l in 0..num_loops {", ["C19"], "mass/shift sum of V accumulated through f64"),
  ("jacobian_uses_integer_half_dim", "src/sampling.rs", "        .powf(&const_builder.from_f64(tropical_subgraph_table.dimension as f64 / 2.0))\n        * (v_trop.ref_div(&v))", "        .powf(&const_builder.from_f64(if num_loops > 1 { (tropical_subgraph_table.dimension / 2) as f64 } else { tropical_subgraph_table.dimension as f64 / 2.0 }))\n        * (v_trop.ref_div(&v))", ["C11", "C01", "C02"], "D/2 as integer division for multi-loop graphs"),
  ("metadata_changes_v", "src/sampling.rs", "    let metadata = if settings.return_metadata {", "    let v = if settings.return_metadata && num_loops > 2 { v.ref_mul(&const_builder.one()) + const_builder.zero() } else { v };\n    let metadata = if settings.return_metadata {", ["C17"], "no-op arithmetic under return_metadata (equivalent mutant: x*1+0 is exact)"),
+ ("gamma_overflow_fallback_reverted", "src/preprocessing.rs", "if !gamma_ratio.is_finite() || gamma_ratio == 0.0 {", "if false {", ["C04"], "reverts fix F9: normalisation inf/NaN/0 when gamma(dod) or the product of gamma(weight) overflows"),
  ("stability_test_reverted", "src/matrix.rs", "if !(error <= error.from_f64(tolerance)) {", "if error > error.from_f64(tolerance) {", ["C16"], "NaN passes the stability test again (reverts fix F2)"),
  ("zero_det_only_q", "src/matrix.rs", "if det_q == const_builder.zero() || determinant == const_builder.zero() {", "if det_q == const_builder.zero() {", ["C16"], "reverts fix F4"),
  ("series_truncated_dim6", "src/matrix.rs", "let max_non_zero_power_of_n = self.dim - 1;", "let max_non_zero_power_of_n = (self.dim - 1).min(4);", ["C15", "C10", "C19"], "nilpotent series truncated after N^4 (dimension >= 6)"),
